@@ -44,7 +44,7 @@ def gen_net(rng, feature=None):
     h, w = rng.choice([6, 7, 8, 9]), rng.choice([6, 7, 8, 9])
     convs = []
     c, hh, ww = cin, h, w
-    n_conv = rng.randint(1, 4)
+    n_conv = rng.randint(2 if feature in ('tied', 'zpad') else 1, 4)
     pool_at = rng.randrange(n_conv) if rng.random() < 0.3 else None
     i = 0
     while i < n_conv:
@@ -83,8 +83,27 @@ def gen_net(rng, feature=None):
             layer['pad'] = [layer['pad'][0], layer['pad'][0]] if layer['k'] == [3, 3] else [0, 0]
             if layer['dil'] != [1, 1]:
                 layer['pad'] = [0, 0]
-        nh = out_size(hh, layer['k'][0], layer['stride'][0], layer['pad'][0], layer['dil'][0])
-        nw = out_size(ww, layer['k'][1], layer['stride'][1], layer['pad'][1], layer['dil'][1])
+        if feature == 'zpad' and i == 1 and min(hh, ww) >= 3:
+            layer.update(cout=rng.randint(2, 6), k=[3, 3], pad=[0, 0], stride=[1, 1], dil=[1, 1], groups=1)
+            layer.pop('pmode', None)
+        if layer['pad'] == [0, 0] and layer['k'] != [1, 1] and i >= 1 and (feature == 'zpad' and i == 1 or rng.random() < 0.06):
+            # explicit nn.ZeroPad2d / ConstantPad2d(0) module in front of the convolution (asymmetric 'same' padding)
+            layer['zpad'] = [rng.randint(0, 1), rng.randint(0, 1), rng.randint(0, 1), rng.randint(0, 1)]
+            if sum(layer['zpad']) == 0:
+                layer['zpad'][rng.randrange(4)] = 1
+        zp = layer.get('zpad', [0, 0, 0, 0])
+        nh = out_size(hh + zp[2] + zp[3], layer['k'][0], layer['stride'][0], layer['pad'][0], layer['dil'][0])
+        nw = out_size(ww + zp[0] + zp[1], layer['k'][1], layer['stride'][1], layer['pad'][1], layer['dil'][1])
+        if i >= 1 and nh == hh and nw == ww and layer['cout'] == c and 'zpad' not in layer and rng.random() < 0.08:
+            layer['twice'] = True          # the same layer applied twice in a row (weight tying)
+            layer['bn'] = False
+        # 'tied': the second layer is invoked twice; 'tied0': the FIRST one (its two call sites then read the network
+        # input and its own output)
+        if (feature == 'tied' and i == 1 or feature == 'tied0' and i == 0) and 'twice' not in layer:
+            layer.update(cout=c, k=[3, 3], pad=[1, 1], stride=[1, 1], dil=[1, 1], groups=1, twice=True, bn=False)
+            layer.pop('pmode', None)
+            layer.pop('zpad', None)
+            nh, nw = hh, ww
         if nh < 1 or nw < 1:
             continue
         convs.append(layer)
@@ -117,6 +136,8 @@ def gen_net(rng, feature=None):
     abits = rng.choice([[8], [4], [2], [2, 4, 8], [2, 4, 8], [2, 8]])
     spec = {'cin': cin, 'h': h, 'w': w, 'convs': convs, 'fcs': fcs, 'wp': bits, 'ap': abits,
             'seed': rng.randrange(2 ** 31)}
+    if feature == 'frelu' or rng.random() < 0.08:
+        spec['final_act'] = True                           # a ReLU after the last layer (non-negative outputs)
     if feature == 'relu6' or (feature is None and rng.random() < 0.15):
         spec['act'] = rng.choice(['relu6', 'ReLU6'])      # functional / module form; PACT clip values stay <= 6
     if rng.random() < 0.4:
@@ -150,6 +171,10 @@ def spec_features(spec):
                 f.add('last-layer-depthwise')
         if l.get('pmode'):
             f.add('padding-mode')
+        if l.get('zpad'):
+            f.add('zero-pad-module')
+        if l.get('twice'):
+            f.add('layer-invoked-twice')
         if l.get('pool') == 'avg':
             f.add('avgpool')
         if l['stride'] != [1, 1]:
@@ -160,6 +185,8 @@ def spec_features(spec):
         f.add('no-bias')
     if spec.get('act'):
         f.add('relu6')
+    if spec.get('final_act'):
+        f.add('final-relu')
     return f
 
 
@@ -218,8 +245,11 @@ def build_net(spec):
                     setattr(self, 'pool%d' % i, nn.AvgPool2d(2) if l['pool'] == 'avg' else nn.MaxPool2d(2))
                 self.conv_names.append(i)
                 c = l['cout']
-                hh = out_size(hh, l['k'][0], l['stride'][0], l['pad'][0], l['dil'][0])
-                ww = out_size(ww, l['k'][1], l['stride'][1], l['pad'][1], l['dil'][1])
+                zp = l.get('zpad', [0, 0, 0, 0])
+                if l.get('zpad'):
+                    setattr(self, 'zp%d' % i, nn.ZeroPad2d(tuple(zp)) if i % 2 else nn.ConstantPad2d(tuple(zp), 0.0))
+                hh = out_size(hh + zp[2] + zp[3], l['k'][0], l['stride'][0], l['pad'][0], l['dil'][0])
+                ww = out_size(ww + zp[0] + zp[1], l['k'][1], l['stride'][1], l['pad'][1], l['dil'][1])
                 if l.get('pool'):
                     hh, ww = hh // 2, ww // 2
             f = c * hh * ww
@@ -235,12 +265,15 @@ def build_net(spec):
 
         def forward(self, x):
             for i, l in enumerate(spec['convs']):
-                x = getattr(self, 'c%d' % i)(x)
-                if l['bn']:
-                    x = getattr(self, 'bn%d' % i)(x)
-                if l.get('final'):
-                    return x
-                x = self.act(x)
+                for rep_ in range(2 if l.get('twice') else 1):
+                    if l.get('zpad'):
+                        x = getattr(self, 'zp%d' % i)(x)
+                    x = getattr(self, 'c%d' % i)(x)
+                    if l['bn']:
+                        x = getattr(self, 'bn%d' % i)(x)
+                    if l.get('final'):
+                        return Fn.relu(x) if spec.get('final_act') else x
+                    x = self.act(x)
                 if l.get('pool'):
                     x = getattr(self, 'pool%d' % i)(x)
             x = x.flatten(1)
@@ -249,7 +282,7 @@ def build_net(spec):
                 x = getattr(self, 'fc%d' % j)(x)
                 if j + 1 < n:
                     x = self.act(x)
-            return x
+            return Fn.relu(x) if spec.get('final_act') else x
 
         def act(self, x):
             if spec.get('act') == 'relu6':
@@ -421,6 +454,8 @@ def _run_case(case, res):
         key = 'C14:%s:integerize-raises:%s:%s' % (bk, exc_key(exc), feat)
         if bk == 'match' and 'depthwise' in feat and 'dilation' in feat and isinstance(exc, IndexError):
             key = 'C14:match:depthwise-dilation'               # _pad_dilation_in_weight loops over all in_channels
+        elif 'layer-invoked-twice' in spec_features(spec) and 'Trying to export a layer of type' in str(exc):
+            key = 'C14:layer-invoked-twice'                    # the second call site finds the layer already converted
         elif bk == 'maupiti' and 'last-conv' in feat and 'no-bias' in feat and isinstance(exc, TypeError):
             key = 'C14:maupiti:last-layer-conv:no-bias'        # zero-point of a bias-free final conv
         viol(key,
@@ -434,8 +469,15 @@ def _run_case(case, res):
     if inq is None:
         inq = fq.get_submodule(names[0]).in_quantizer
     io = {}
-    hooks = [im.get_submodule(n).register_forward_hook(
-        (lambda n: lambda mod, i, o: io.__setitem__(n, (i[0].detach().clone(), o.detach().clone())))(n)) for n in names]
+    calls = []                # (layer name, input, output) in call order: a layer may be invoked more than once
+
+    def mk(n):
+        def hook(mod, i, o):
+            rec = (i[0].detach().clone(), o.detach().clone())
+            io.setdefault(n, []).append(rec)
+            calls.append((n,) + rec)
+        return hook
+    hooks = [im.get_submodule(n).register_forward_hook(mk(n)) for n in names]
     with torch.no_grad():
         if bname == 'MAUPITI':
             old = inq.dequantize
@@ -466,7 +508,7 @@ def _run_case(case, res):
         got = y_int_net * (Ll.s_x * Ll.s_w).reshape([1, -1] + [1] * (y_int_net.dim() - 2)) if bname == 'MATCH' else y_int_net
         err = float((got - ref).abs().max())
         mx = float(ref.abs().max())
-        a_in = io[names[-1]][0]
+        a_in = io[names[-1]][-1][0]
         if err > 0.02 * mx + 1e-4 or not bool(torch.all(a_in == a_in.round())):
             viol('C14:last-layer-depthwise',
                  'network ending in a depthwise / one-channel Conv2d: layers %s before it carry a DummyQuantizer output (treated '
@@ -477,7 +519,16 @@ def _run_case(case, res):
     sb = kw.get('scale_bit', 24) if bname == 'MATCH' else MAUPITI_SB
     sp = kw.get('shift_pos', 24) if bname == 'MATCH' else MAUPITI_SP
     crashed_at = None
-    between_layers(case, res, viol, fq, names, io, bname)
+    between_layers(case, res, viol, fq, calls, bname)
+    if spec.get('final_act') and fwd_exc is None and calls:
+        # a ReLU after the last layer acts on its output (real-valued logits for MAUPITI, integers for MATCH)
+        want = torch.relu(calls[-1][2])
+        cnt(res, 'final-relu-checked')
+        if tuple(want.shape) != tuple(y_int_net.shape) or not bool(torch.equal(want, y_int_net)):
+            viol('C14:%s:final-relu-removed' % bk,
+                 'the network ends in a ReLU after its last layer; the integer network returns %r where relu(last layer) is %r'
+                 % ([round(v, 4) for v in y_int_net.reshape(-1).tolist()[:5]], [round(v, 4) for v in want.reshape(-1).tolist()[:5]]),
+                 names[-1])
     for li, n in enumerate(names):
         fl, L = fq.get_submodule(n), im.get_submodule(n)
         cls = type(L).__name__
@@ -491,11 +542,14 @@ def _run_case(case, res):
                 viol(key, 'integer network forward raises at layer %s: %s' % (n, str(fwd_exc)[:160]), n)
             continue
         with torch.no_grad():
-            check_layer(case, res, viol, fq, im, n, fl, L, cls, feat, io[n], sb, sp, li == len(names) - 1)
-    res['layers'] += len(io)
+            for rec in io[n]:
+                check_layer(case, res, viol, fq, im, n, fl, L, cls, feat, rec, sb, sp, li == len(names) - 1)
+            if len(io[n]) > 1:
+                cnt(res, 'layers-invoked-twice')
+    res['layers'] += len(calls)
 
 
-def between_layers(case, res, viol, fq, names, io, bname):
+def between_layers(case, res, viol, fq, calls, bname):
     """what happens BETWEEN two integer layers (activation, pooling, flatten) must commute with the integer image:
     the input of layer k+1 in the integer network = levels of [ops of the fake-quantized network applied to the
     de-quantized output of integer layer k].  (The per-layer comparison alone cannot see an op that acts on integer
@@ -504,26 +558,40 @@ def between_layers(case, res, viol, fq, names, io, bname):
     import torch.nn.functional as Fn
     from plinio.methods.mps.quant.quantizers import DummyQuantizer
     spec = case['spec']
-    for a, b in zip(names, names[1:]):
-        if a not in io or b not in io:
-            return
+    for (a, _, ya), (b, xb, _) in zip(calls, calls[1:]):
         la = fq.get_submodule(a)
         if isinstance(la.out_quantizer, DummyQuantizer):
             return
         p = int(la.out_quantizer.precision)
+        lb = fq.get_submodule(b)
+        if not isinstance(lb.in_quantizer, DummyQuantizer) and (
+                int(lb.in_quantizer.precision) != p or float(lb.in_quantizer.scale) != float(la.out_quantizer.scale)):
+            # the integers layer b receives are levels of a's output quantizer, b interprets them with another one
+            if a == b == 'c0' and spec['convs'][0].get('twice'):
+                key = 'C14:first-layer-invoked-twice'
+            else:
+                key = 'C14:%s:in-quantizer-differs-from-producer' % bname.lower()
+            viol(key, 'layer %s reads the output of %s (%d bit, scale %.6g) with an input quantizer of %d bit, scale %.6g%s'
+                 % (b, a, p, float(la.out_quantizer.scale), int(lb.in_quantizer.precision), float(lb.in_quantizer.scale),
+                    ': the first layer is invoked twice and has ONE input quantizer, that of the network input'
+                    if key.endswith('twice') else ''), b)
+            return
         off = 2 ** (p - 1) if bname == 'MAUPITI' else 0
         sf = (2 ** p - 1) / (la.out_quantizer.clip_val.data[0] + 1e-3)
         with torch.no_grad():
-            t = (io[a][1] + off) / sf                       # de-quantized image of the integer output
+            t = (ya + off) / sf                             # de-quantized image of the integer output
             if spec.get('act'):
                 t = Fn.relu6(t)
             else:
                 t = Fn.relu(t)
             lspec = spec['convs'][int(a[1:])] if a.startswith('c') else {}
-            if lspec.get('pool'):
+            bspec = spec['convs'][int(b[1:])] if b.startswith('c') else {}
+            if lspec.get('pool') and a != b:
                 t = Fn.avg_pool2d(t, 2) if lspec['pool'] == 'avg' else Fn.max_pool2d(t, 2)
+            if bspec.get('zpad'):
+                t = Fn.pad(t, tuple(bspec['zpad']), value=0.0)          # a real 0: level 0 of the unsigned image
             want = t * sf
-            have = io[b][0] + off
+            have = xb + off
             if have.dim() != want.dim():
                 want = want.flatten(1)
         cnt(res, 'between-layers-checked')
@@ -532,11 +600,15 @@ def between_layers(case, res, viol, fq, names, io, bname):
         d = float((want - have).abs().max())
         if d > 1e-2:
             key = 'C14:%s:between-layers' % bname.lower()
-            if spec.get('act'):
+            if bspec.get('zpad') and float((want - have)[..., 1:-1, 1:-1].abs().max() if want.dim() == 4 and min(want.shape[2:]) > 2 else 1) <= 1e-2:
+                key = 'C14:%s:zero-pad-between-layers' % bname.lower()      # only the padded border is wrong
+            elif spec.get('act'):
                 key = 'C14:relu6:clips-integer-levels'
+            ops = spec.get('act', 'relu') + (' + %s-pool' % lspec['pool'] if lspec.get('pool') and a != b else '') + \
+                (' + ZeroPad2d%r' % (tuple(bspec['zpad']),) if bspec.get('zpad') else '')
             viol(key, 'the input of integer layer %s differs by up to %.4g levels from the integer image of what its '
-                 'fake-quantized counterpart receives (activation %s%s between %s and %s acts on the integer levels)'
-                 % (b, d, spec.get('act', 'relu'), ' + %s-pool' % lspec['pool'] if lspec.get('pool') else '', a, b), b)
+                 'fake-quantized counterpart receives (the ops between %s and %s, %s, are applied to the integer levels as they '
+                 'are)' % (b, d, a, b, ops), b)
             return
 
 
@@ -627,6 +699,14 @@ def check_layer(case, res, viol, fq, im, n, fl, L, cls, feat, io_n, sb, sp, is_l
              'bound (does not fit a signed %d-bit integer)' % (bname, n, S[:4], sb, 2 ** (sb - 1), sb), n)
     if not (0 <= sh < sp):
         bad('shift-range', 'shift %d outside [0, %d)' % (sh, sp))
+    if getattr(L, 'bias', None) is not None:
+        pb = L.bias.detach().reshape(-1).tolist()
+        if not all(math.isfinite(v) and v == int(v) for v in pb):
+            viol('C14:bias-parameter-not-written',
+                 '%s layer %s: the `bias` Parameter kept in the state_dict is never written (default-initialised floats %r); '
+                 'the layer computes with add_bias / _zero_point, integer bias %r' % (cls, n, [round(v, 4) for v in pb[:3]], nb[:3]), n)
+        elif pb != [float(v) for v in nb]:
+            bad('bias-parameter', 'the `bias` Parameter %r is not the integer bias %r' % (pb[:3], nb[:3]))
     if not last or cls.endswith('Linear'):
         ab = L.add_bias.detach().reshape(-1).tolist()
         lim = [(abs(v) if v >= 0 else abs(v) - 1) for v in ab]
@@ -649,6 +729,12 @@ def check_layer(case, res, viol, fq, im, n, fl, L, cls, feat, io_n, sb, sp, is_l
         return
     off_in = 2 ** (pin - 1) if bname == 'MAUPITI' else 0
     n_x = x_int + off_in                                     # unsigned integer image of the input
+    if (float(n_x.min()) < 0 or float(n_x.max()) > 2 ** pin - 1) and n == 'c0' and case['spec']['convs'][0].get('twice'):
+        viol('C14:first-layer-invoked-twice',
+             'the first layer is invoked twice: its second call site receives its own %s-bit output while the layer has ONE '
+             'input quantizer, the %d-bit network-input quantizer (MPS does not put the network input and the layer output in '
+             'one sharing component): input image in [%g, %g]' % (pout, pin, float(n_x.min()), float(n_x.max())), n)
+        return
     if float(n_x.min()) < 0 or float(n_x.max()) > 2 ** pin - 1:
         bad('activation-range', 'layer input image outside [0, %d]: min %r max %r' % (2 ** pin - 1, float(n_x.min()), float(n_x.max())))
         return
@@ -1132,7 +1218,7 @@ MATCH_OPTS = [{}, {'scale_bit': 16, 'shift_pos': 16}, {'scale_bit': 24, 'shift_p
 def gen_cases(rng, quick, mult=1):
     cases = []
     n = (60 if quick else 2000) * mult
-    feats = ['dil0', 'dil1', None, 'dwdil', 'sym', 'fconv', None, 'relu6', 'pmode', None]
+    feats = ['dil0', 'dil1', None, 'dwdil', 'sym', 'fconv', None, 'relu6', 'pmode', None, 'tied', 'zpad', 'frelu', None, 'tied0']
     for i in range(n):
         spec = gen_net(rng, feats[i % len(feats)])
         post = POSTS[rng.randrange(len(POSTS))]
@@ -1171,7 +1257,8 @@ def observe_float_guard(chk):
 def run(chk):
     from .. import common
     chk.rule = ('networks: 1-4 conv blocks from {3x3 (pad 0/1), 3x3 stride 2, 1x1, depthwise 3x3 + pointwise, dilated (k,1) '
-                'on axis 0, dilated (1,k) on axis 1, depthwise dilated on either axis, asymmetric padding} with bias on/off, BatchNorm folded by MPS, optional '
+                'on axis 0, dilated (1,k) on axis 1, depthwise dilated on either axis, asymmetric padding, explicit ZeroPad2d/ConstantPad2d(0) '
+                'module in front, the same layer invoked twice} with bias on/off, BatchNorm folded by MPS, optional '
                 'MaxPool, flatten, 1-2 Linear (bias on/off) or, fully convolutional, a final Conv2d (bias on/off) giving the logits; weight/activation precisions drawn from {2,4,8} per layer '
                 '(seeded one-hot alpha), random PACT clip values; MATCH with 5 scale_bit/shift_pos options, MAUPITI; random '
                 'inputs in [0,1); every integer layer compared on the activations the integer network itself produced; 40% of the '
